@@ -12,6 +12,9 @@ THEOREMS = [
     "Remoc.Table.reject_once",
     "Remoc.Table.accept_pairs",
     "Remoc.Table.request_credit_bounds_queue",
+    "Remoc.Table.Sys.request_credit_invariant",
+    "Remoc.Table.Sys.request_located_once",
+    "Remoc.Table.Sys.listen_queue_has_room",
 ]
 RULE = ("same runs as C07. Predicates on the real run: unanswered OpenPort requests on the wire never exceed the connect_queue the "
         "peer advertised (at every prefix); every connect/accept/inspect/request call returns at most once and none is pending "
